@@ -16,6 +16,8 @@ Oracle validity (`ValidTiled`, `ValidArrange`, `ValidRowPerms`) says only what a
 delivers: `choice(.., replace=False)` a sub-multiset of the right size, `shuffle` a permutation.
 -/
 import PybropsModel.Lemmas.XConfigSample
+import PybropsModel.Lemmas.XConfigReal
+import PybropsModel.Lemmas.XConfigCount
 import PybropsModel.Lemmas.XConfigTwoWay
 import PybropsModel.Lemmas.XConfigMate
 import PybropsModel.Lemmas.SelProtEquiv
@@ -171,6 +173,52 @@ theorem integer_xconfig (decn : List Nat) (nc np : Nat) (rem perm : List Nat)
     · omega
     · rw [Nat.add_mul]; omega
 
+/-- **Exact characterisation of the integer use counts** (as tight as the code): candidate `i` is used
+    `q·dᵢ + rᵢ` times, where `rᵢ` is the number of times the remainder draw
+    `rng.choice(options, N mod Σd, replace=False)` returned `i`; `rᵢ ≤ min(dᵢ, N mod Σd)` and the `rᵢ`
+    add up to `N mod Σd`. -/
+theorem integer_remainder_exact (decn : List Nat) (nc np : Nat) (rem perm : List Nat)
+    (orders rowperms : List (List Nat)) (rows : Rows)
+    (vt : ValidTiled (options decn) (nc * np) rem perm) (va : ValidArrange nc np orders rowperms)
+    (h : sampleInteger decn nc np rem perm orders rowperms = .ok rows) :
+    (∀ i, rows.flatten.count i = (nc * np / decn.sum) * decn.getD i 0 + rem.count i ∧
+          rem.count i ≤ min (decn.getD i 0) (nc * np % decn.sum)) ∧
+      ((List.range decn.length).map (fun i => rem.count i)).sum = nc * np % decn.sum := by
+  obtain ⟨_, _, hc⟩ := sampleSubset_facts vt va h
+  have hlen : rem.length = nc * np % decn.sum := by rw [vt.rem_len, length_options]
+  constructor
+  · intro i
+    obtain ⟨h1, h2⟩ := hc i
+    rw [count_options, length_options] at h1
+    rw [count_options] at h2
+    refine ⟨h1, le_min h2 ?_⟩
+    rw [← hlen]; exact List.count_le_length
+  · rw [sum_count_range rem decn.length, hlen]
+    intro x hx
+    have hm : x ∈ options decn := vt.rem_sub.subset hx
+    have : 0 < (options decn).count x := List.count_pos_iff.mpr hm
+    rw [count_options] at this
+    by_contra hn
+    simp [List.getD_eq_getElem?_getD, List.getElem?_eq_none (Nat.le_of_not_lt hn)] at this
+
+/-- **… and every such remainder vector occurs** (this is D20): for any `r` with `rᵢ ≤ dᵢ` and
+    `Σr = N mod Σd` there is a legitimate draw after which candidate `i` is used exactly `q·dᵢ + rᵢ`
+    times — e.g. `r = (0, 4)` for `d = (4, 4)`, `N = 4`, far from the proportional share. -/
+theorem integer_remainder_attained (decn r : List Nat) (nc np : Nat)
+    (hS : 0 < decn.sum) (hl : r.length = decn.length) (hle : ∀ i, r.getD i 0 ≤ decn.getD i 0)
+    (hsum : r.sum = nc * np % decn.sum) :
+    ∃ rem, ValidTiled (options decn) (nc * np) rem (List.range (nc * np)) ∧
+      ∀ (orders rowperms : List (List Nat)) (rows : Rows), ValidArrange nc np orders rowperms →
+        sampleInteger decn nc np rem (List.range (nc * np)) orders rowperms = .ok rows →
+        ∀ i, rows.flatten.count i = (nc * np / decn.sum) * decn.getD i 0 + r.getD i 0 := by
+  obtain ⟨hsub, hlen, hcnt⟩ := remainder_vector_valid decn r hl hle
+  have vt : ValidTiled (options decn) (nc * np) (Np.repeatEach r (List.range r.length)) (List.range (nc * np)) :=
+    ⟨by rw [← List.length_pos_iff, length_options]; exact hS,
+     by rw [hlen, length_options, hsum], hsub, List.Perm.refl _⟩
+  refine ⟨_, vt, ?_⟩
+  intro orders rowperms rows va h i
+  rw [((integer_remainder_exact decn nc np _ _ orders rowperms rows vt va h).1 i).1, hcnt i]
+
 /-- when the contributions sum to a divisor of the number of slots the shares are met exactly and the
     configuration meets the whole Spec.
 
@@ -262,6 +310,10 @@ theorem integer_share_counterexample :
     specContribution ([4, 4].map (fun (d : Nat) => (d : Rat))) 2 2 [[1, 1], [1, 1]] = false ∧
     withinOne ([4, 4].map (fun (d : Nat) => (d : Rat))) 4 [1, 1, 1, 1] = false := by decide +kernel
 
+-- the hypotheses of `integer_remainder_attained` are met by d = (4,4), N = 4, r = (0,4)
+example : 0 < ([4, 4] : List Nat).sum ∧ ([0, 4] : List Nat).length = ([4, 4] : List Nat).length ∧
+    ([0, 4] : List Nat).sum = 2 * 2 % ([4, 4] : List Nat).sum ∧
+    (∀ i < 3, ([0, 4] : List Nat).getD i 0 ≤ ([4, 4] : List Nat).getD i 0) := by decide
 -- the draw of the counterexample is a legitimate one, and the partial theorem's hypotheses are satisfiable
 example : ValidTiled (options [4, 4]) (2 * 2) [1, 1, 1, 1] [0, 1, 2, 3] :=
   ⟨by decide, by decide, List.Sublist.subperm (by decide), by decide⟩
@@ -270,43 +322,74 @@ example : (∀ d ∈ ([0, 1, 0, 1] : List Nat), d ≤ 1) ∧
     sampleInteger [0, 1, 0, 1] 2 2 [] [0, 2, 1, 3] [[0, 1, 2, 3, 4, 5], [0, 1, 2, 3, 4, 5]] [[0, 1], [1, 0]]
       = .ok [[3, 1], [3, 1]] := by decide
 
-/-! ## 3. Real contribution vectors (stochastic universal sampling entered through its contract) -/
+/-! ## 3. Real contribution vectors: stochastic universal sampling inside the model -/
 
-/-- **Real configuration, by composition with C17.**  `sus` is what `stochastic_universal_sampling`
-    returned.  If it has the requested number of draws, touches only candidates with positive weight and
-    uses each within one of its share (C17's theorem under its hypothesis `0 < offset < spacing`), then
-    the configuration built from it meets the whole Spec: the arrangement steps change neither shape nor
-    multiset and end exchange-optimal.
-
-    FULL STATEMENT (needs C17's theorem about the repaired sampler, fc545079, for the three hypotheses
-    on `sus`; the sampler itself is not modelled here):
-      ∀ weights w with Σw > 0 and every generator state: `specContribution w nc np rows = true`. -/
-theorem real_xconfig_partial (w : List Rat) (sus : List Nat) (nc np : Nat)
+/-- **Real configuration, full strength.**  `sampleRealSus` = `RealSelectionConfiguration.sample_xconfig`
+    with C17's model of the repaired sampler inside.  For every non-negative weight vector with positive
+    sum, every shape, every tie order of `argsort`, **every offset in `[0, spacing)`** (0 included) and every
+    shuffle / exchange order the generator can deliver: the configuration meets the whole Spec
+    (shape, only candidates of positive weight, every use count within one of the proportional share,
+    exchange-optimal), and in fact every candidate is used the floor or the ceiling of its share. -/
+theorem real_xconfig (w : List ℚ) (nc np : Nat) (sigma : List Nat) (o : ℚ) (perm : List Nat)
     (orders rowperms : List (List Nat)) (rows : Rows)
-    (hlen : sus.length = nc * np) (hsup : supportOk w sus = true) (hshare : withinOne w (nc * np) sus = true)
-    (va : ValidArrange nc np orders rowperms)
-    (h : sampleReal sus nc np orders rowperms = .ok rows) :
-    specContribution w nc np rows = true := by
-  unfold sampleReal at h
-  rw [if_neg (by simpa using hlen)] at h
-  obtain ⟨hr, hp, ho, _⟩ := arrange_facts hlen va h
-  simp only [specContribution, Bool.and_eq_true]
-  refine ⟨⟨⟨(shapeOk_iff _ _ _).mpr hr, ?_⟩, ?_⟩, (localOpt_iff _ _ _).mpr ho⟩
-  · simp only [supportOk, List.all_eq_true] at hsup ⊢
+    (hv : C17.SusValid w [nc, np]) (va : ValidArrange nc np orders rowperms)
+    (h : sampleRealSus w nc np sigma o perm orders rowperms = .ok rows) :
+    specContribution w nc np rows = true ∧
+      ∀ i (hi : i < w.length),
+        (rows.flatten.count i : ℤ) = ⌊((nc * np : ℕ) : ℚ) * w[i] / Np.sum w⌋ ∨
+        (rows.flatten.count i : ℤ) = ⌈((nc * np : ℕ) : ℚ) * w[i] / Np.sum w⌉ := by
+  obtain ⟨hnn, hT, _⟩ := hv
+  obtain ⟨sel, hs, hr⟩ := sampleRealSus_split h
+  have hlen : sel.length = nc * np := by
+    rw [C17.sus_length w [nc, np] sigma perm sel o hs, prod_pair]
+  have hfc := fun i hi => C17.sus_floor_ceil w [nc, np] sigma perm sel o hnn hT hs i hi
+  simp only [prod_pair] at hfc
+  have hsup : supportOk w sel = true := by
+    simp only [supportOk, List.all_eq_true, Bool.and_eq_true, decide_eq_true_eq]
     intro i hi
-    exact hsup i (hp.mem_iff.mp hi)
-  · simp only [withinOne, List.all_eq_true] at hshare ⊢
-    intro i hi
-    rw [hp.count_eq]
-    exact hshare i hi
+    have hil := C17.sus_members w [nc, np] sigma perm sel o hnn hT hs i hi
+    refine ⟨hil, ?_⟩
+    have hg : w.getD i 0 = w[i] := by simp [hil]
+    rw [hg]
+    rcases lt_or_eq_of_le (hnn _ (List.getElem_mem hil)) with hpos | hz
+    · exact hpos
+    · exact absurd hi (C17.sus_zero_weight_never_selected w [nc, np] sigma perm sel o hnn hT hs i hil hz.symm)
+  have hshare := withinOne_of_floor_ceil w (nc * np) sel hT hfc
+  refine ⟨sampleReal_spec_of_contract w sel nc np orders rowperms rows hlen hsup hshare va hr, ?_⟩
+  intro i hi
+  rw [(sampleReal_perm sel nc np orders rowperms rows hlen va hr).count_eq]
+  exact hfc i hi
 
--- a SUS result of the wrong length (what the sampler returned before fix fc545079 when the offset was
--- within ulps of the spacing, D7) is the code's reshape `ValueError`: no configuration is produced
+/-- **The real-valued sampler always returns**: the sampler never fails (C17) and the hill-climb
+    terminates, for every valid input and every draw. -/
+theorem real_sampling_total (w : List ℚ) (nc np : Nat) (sigma : List Nat) (o : ℚ) (perm : List Nat)
+    (orders rowperms : List (List Nat))
+    (hv : C17.SusValid w [nc, np]) (ho : C17.SusOracle w [nc, np] sigma o perm)
+    (hn : nc * np < orders.length) :
+    ∃ rows, sampleRealSus w nc np sigma o perm orders rowperms = .ok rows := by
+  obtain ⟨sel, hs, hl⟩ := C17.sus_returns_requested_number_partial w [nc, np] sigma perm o hv ho
+  rw [prod_pair] at hl
+  obtain ⟨rows, hr⟩ := arrange_ok (rowperms := rowperms) hl hn
+  refine ⟨rows, ?_⟩
+  unfold sampleRealSus
+  rw [hs]
+  show sampleReal sel nc np orders rowperms = .ok rows
+  unfold sampleReal
+  rw [if_neg (by simpa using hl)]
+  exact hr
+
+-- non-vacuity: weights (1/2, 0, 1/4, 1/4) on 2×2 slots, offset 1/16 of a spacing 1/4; and offset exactly 0
+example : sampleRealSus ([1/2, 0, 1/4, 1/4] : List ℚ) 2 2 [0, 3, 2, 1] (1/16) [2, 0, 3, 1]
+    [[0, 1, 2, 3, 4, 5], [0, 1, 2, 3, 4, 5]] [[0, 1], [1, 0]] = .ok [[3, 0], [0, 2]] := by decide +kernel
+example : C17.SusValid ([1/2, 0, 1/4, 1/4] : List ℚ) [2, 2] ∧
+    C17.SusOracle ([1/2, 0, 1/4, 1/4] : List ℚ) [2, 2] [0, 3, 2, 1] (1/16) [2, 0, 3, 1] ∧
+    C17.SusOracle ([1/2, 0, 1/4, 1/4] : List ℚ) [2, 2] [0, 3, 2, 1] 0 [2, 0, 3, 1] := by
+  unfold C17.SusValid C17.SusOracle
+  refine ⟨⟨by decide +kernel, by decide +kernel, by decide⟩, ⟨by decide, by decide +kernel, by decide +kernel, by decide +kernel, by decide⟩,
+    ⟨by decide, by decide +kernel, by decide +kernel, by decide +kernel, by decide⟩⟩
+-- a sampler result of the wrong length (what the sampler returned before fix fc545079 when the offset
+-- was within ulps of the spacing, D7) is the code's reshape `ValueError`
 example : sampleReal [2, 1] 3 1 [] [[0], [0], [0]] = .error "value" := by decide
-
-example : sampleReal [2, 0, 2, 3] 2 2 [[0, 1, 2, 3, 4, 5]] [[0, 1], [1, 0]] = .ok [[2, 0], [3, 2]] ∧
-    supportOk [1/2, 0, 1/4, 1/4] [2, 0, 2, 3] = true ∧ withinOne [1/2, 0, 1/4, 1/4] 4 [2, 0, 2, 3] = true := by
-  decide +kernel
 
 /-! ## 4. Mate-selection configurations and cross maps -/
 
@@ -320,6 +403,15 @@ theorem xmapix_mem (ntaxa nparent : Nat) (unique : Bool) (t : List Nat) :
 /-- … each exactly once, so a decision index determines its cross and vice versa. -/
 theorem xmapix_nodup (ntaxa nparent : Nat) (unique : Bool) : (xmapix ntaxa nparent unique).Nodup :=
   nodup_triuFrom unique ntaxa nparent 0
+
+/-- **Size of the decision space of mate selection**: `C(ntaxa, nparent)` candidate crosses with unique
+    parents, the multiset coefficient `C(ntaxa + nparent - 1, nparent)` when selfing is allowed. -/
+theorem xmapix_card (ntaxa nparent : Nat) :
+    (xmapix ntaxa nparent true).length = ntaxa.choose nparent ∧
+    (xmapix ntaxa nparent false).length = (ntaxa + nparent - 1).choose nparent := by
+  unfold xmapix
+  rw [length_triuFrom_strict, length_triuFrom_nonstrict, Nat.multichoose_eq]
+  simp
 
 /-- **Subset mate selection.**  Every cross of the configuration is the map row of a member of the
     decision, there are `ncross` of them, and any two members are used equally often up to one. -/
@@ -344,6 +436,7 @@ theorem mate_subset_xconfig (decn : List Nat) (xmap : Rows) (nc : Nat) (rem perm
     rw [h1'] at h1 h2
     omega
 
+example : (xmapix 4 2 true).length = Nat.choose 4 2 ∧ (xmapix 3 2 false).length = Nat.choose (3 + 2 - 1) 2 := by decide
 example : xmapix 4 2 true = [[0, 1], [0, 2], [0, 3], [1, 2], [1, 3], [2, 3]] ∧
     xmapix 3 2 false = [[0, 0], [0, 1], [0, 2], [1, 1], [1, 2], [2, 2]] := by decide
 example : sampleMate [5, 0, 3] (xmapix 4 2 true) 4 [0] [3, 0, 1, 2] [1, 0, 3, 2]
@@ -562,16 +655,38 @@ theorem mate_integer_xconfig (decn : List Nat) (xmap : Rows) (nc : Nat) (rem per
     · omega
     · rw [Nat.add_mul]; omega
 
-/-- **Real mate selection, by composition with C17**: the crosses are the map rows of the SUS draws
-    (`sus`, oracle), in shuffled order — same multiset of candidate crosses, `ncross` of them. -/
-theorem mate_real_xconfig_partial (sus : List Nat) (xmap : Rows) (nc : Nat) (perm2 : List Nat) (rows : Rows)
-    (hlen : sus.length = nc) (hp2 : perm2.Perm (List.range nc))
-    (h : sampleMateReal sus xmap nc perm2 = .ok rows) :
-    ∃ out : List Nat, out.Perm sus ∧ rows = out.map (fun d => xmap.getD d []) ∧ ∀ d ∈ out, d < xmap.length := by
-  unfold sampleMateReal at h
-  rw [if_neg (by simpa using hlen)] at h
-  obtain ⟨e1, e2⟩ := lookup_ok xmap _ rows h
-  exact ⟨Np.take perm2 sus, take_perm sus perm2 (by rw [hlen]; exact hp2), e1, e2⟩
+/-- **Real mate selection, full strength** (sampler inside the model): the crosses are map rows of
+    candidate crosses of positive weight, there are `ncross` of them, and every candidate cross is used
+    the floor or the ceiling of its share `ncross·w_d/Σw` — for every offset, 0 included. -/
+theorem mate_real_xconfig (w : List ℚ) (xmap : Rows) (nc : Nat) (sigma : List Nat) (o : ℚ)
+    (perm perm2 : List Nat) (rows : Rows)
+    (hv : C17.SusValid w [nc]) (hp2 : perm2.Perm (List.range nc))
+    (h : sampleMateRealSus w xmap nc sigma o perm perm2 = .ok rows) :
+    ∃ out : List Nat, rows = out.map (fun d => xmap.getD d []) ∧ out.length = nc ∧
+      (∀ d ∈ out, d < xmap.length ∧ ∃ hd : d < w.length, 0 < w[d]) ∧
+      ∀ d (hd : d < w.length),
+        (out.count d : ℤ) = ⌊((nc : ℕ) : ℚ) * w[d] / Np.sum w⌋ ∨
+        (out.count d : ℤ) = ⌈((nc : ℕ) : ℚ) * w[d] / Np.sum w⌉ := by
+  obtain ⟨hnn, hT, _⟩ := hv
+  obtain ⟨sel, hs, hr⟩ := sampleMateRealSus_split h
+  have hlen : sel.length = nc := by rw [C17.sus_length w [nc] sigma perm sel o hs, prod_single]
+  obtain ⟨out, hperm, e1, e2⟩ := sampleMateReal_lookup sel xmap nc perm2 rows hlen hp2 hr
+  have hfc := fun i hi => C17.sus_floor_ceil w [nc] sigma perm sel o hnn hT hs i hi
+  simp only [prod_single] at hfc
+  refine ⟨out, e1, by rw [hperm.length_eq, hlen], ?_, ?_⟩
+  · intro d hd
+    have hds : d ∈ sel := hperm.mem_iff.mp hd
+    have hdl := C17.sus_members w [nc] sigma perm sel o hnn hT hs d hds
+    refine ⟨e2 d hd, hdl, ?_⟩
+    rcases lt_or_eq_of_le (hnn _ (List.getElem_mem hdl)) with hpos | hz
+    · exact hpos
+    · exact absurd hds (C17.sus_zero_weight_never_selected w [nc] sigma perm sel o hnn hT hs d hdl hz.symm)
+  · intro d hd
+    rw [hperm.count_eq]
+    exact hfc d hd
+
+example : sampleMateRealSus ([1/2, 1/2, 1] : List ℚ) (xmapix 3 2 true) 4 [2, 1, 0] 0 [3, 1, 0, 2] [0, 1, 2, 3]
+    = .ok [[0, 1], [1, 2], [1, 2], [0, 2]] := by decide +kernel
 
 /-- **UC integer protocol (after fix 3d8c7c9b).**  For every `ncross ≥ 1` and every per-cross
     `nmating` array the decision-space bounds are built: both have one entry per candidate cross, the
@@ -606,5 +721,44 @@ example : ucIntegerBoundsPrerepair 2 2 [1, 1] 3 = .error "value" ∧
   decide
 example : sampleMateInteger [2, 0, 1] (xmapix 3 2 true) 4 [0] [3, 0, 1, 2] [1, 0, 3, 2]
     = .ok [[0, 1], [0, 1], [1, 2], [0, 1]] := by decide
+
+/-! ## 9. Decision-space bounds of further protocol families (D55, D56 — both repaired) -/
+
+/-- **EMBV integer protocol (after fix 95a1a100).**  For every `ncross ≥ 1`, every per-cross `nmating`
+    array and every number of candidate crosses the integer problem is built: both bounds have one entry
+    per candidate cross, lower bound 0, upper bound `ncross · nparent · m` with `m ≥` every `nmating[i]`. -/
+theorem embv_integer_bounds (nc np nx : Nat) (nmating : List Nat) (hl : nmating.length = nc) (h1 : 1 ≤ nc) :
+    ∃ lo up m, embvIntegerBounds nc np nmating nx = .ok (lo, up) ∧ lo = List.replicate nx 0 ∧
+      up = List.replicate nx (nc * np * m) ∧ ∀ x ∈ nmating, x ≤ m := by
+  cases nmating with
+  | nil => simp at hl; omega
+  | cons m ms =>
+    refine ⟨_, _, ms.foldl max m, by simp [embvIntegerBounds, vectorProblemBounds], rfl, rfl, ?_⟩
+    intro x hx
+    obtain ⟨a, b⟩ := foldl_max_ge ms m
+    rcases List.mem_cons.mp hx with rfl | hx
+    · exact a
+    · exact b x hx
+
+/-- **D55 (repaired by 95a1a100).**  Before the repair the protocol handed *float* bounds to the integer
+    problem: the constructor's dtype check failed for every number of candidate crosses. -/
+theorem embv_integer_bounds_prerepair_counterexample (nx : Nat) : embvIntegerBoundsPrerepair nx = .error "type" := by
+  simp [embvIntegerBoundsPrerepair, vectorProblemBounds]
+
+/-- **Family-EBV vector protocols (after fix ff495eaf).**  The problem is built for every `nparent` and
+    every population size: one decision variable per taxon, bounds of that length. -/
+theorem family_vector_bounds (nparent ntaxa : Nat) : familyVectorBounds nparent ntaxa = .ok () := by
+  simp [familyVectorBounds, vectorProblemBounds]
+
+/-- **D56 (repaired by ff495eaf).**  Before the repair `ndecn = self.nparent` met bounds of length
+    `ntaxa`: `ValueError` whenever `nparent ≠ ntaxa`. -/
+theorem family_vector_bounds_prerepair_counterexample (nparent ntaxa : Nat) (h : nparent ≠ ntaxa) :
+    familyVectorBoundsPrerepair nparent ntaxa = .error "value" := by
+  have : ¬ ntaxa = nparent := fun e => h e.symm
+  simp [familyVectorBoundsPrerepair, vectorProblemBounds, this]
+
+example : familyVectorBoundsPrerepair 2 3 = .error "value" ∧ familyVectorBounds 2 3 = .ok () ∧
+    embvIntegerBoundsPrerepair 3 = .error "type" ∧
+    embvIntegerBounds 2 2 [1, 3] 3 = .ok ([0, 0, 0], [12, 12, 12]) := by decide
 
 end C07
